@@ -205,7 +205,7 @@ pub fn normalize(c: &mut Case) {
                     *id = pub_id;
                     pub_id += 1;
                 }
-                ClientOp::Send { work, .. } | ClientOp::Call { work, .. } | ClientOp::CallDrop { work, .. } => {
+                ClientOp::Send { work, .. } | ClientOp::Call { work, .. } | ClientOp::CallDrop { work, .. } | ClientOp::SendRepoll { work, .. } => {
                     if stream {
                         work.retain(|s| !matches!(s, Step::CtxRestart));
                     }
@@ -279,28 +279,36 @@ fn one_actor(spawn: SpawnSpec, beh: Behavior) -> Vec<ActorSpec> {
 
 pub fn c01(big: bool) -> BoxedStrategy<Case> {
     let max_ops = if big { 16 } else { 10 };
-    (plain_spawn(false), started_with_timers(2), 1usize..=4)
+    // mostly plain mailboxes; also restart strategies, a (non-failing) handler timeout and stream-attached
+    // actors: FIFO must hold under every configuration
+    let spawn = prop_oneof![
+        7 => plain_spawn(false),
+        1 => plain_spawn(true),
+        1 => (mailbox(), 3u32..8, any::<bool>()).prop_map(|(mailbox, t, owning)| SpawnSpec::Build { mailbox, strategy: RStrat::Default, timeout: Some(t), fail_on_timeout: false, owning }),
+        1 => stream_spawn(),
+    ];
+    let w = OpWeights { call_drop: 3, restart: 2, ..MSG_WEIGHTS };
+    let op = mixed_ops(w, vec![(3, (any::<u8>(), 0u8..4).prop_map(|(stream, n)| ClientOp::Feed { stream, n }).boxed())]);
+    (spawn, started_with_timers(2), 1usize..=4)
         .prop_flat_map(move |(spawn, started, n)| {
             let owning = spawn.owning();
-            (
-                Just(spawn),
-                Just(started),
-                grants(n, owning, 1),
-                clients(n..=n, 3..=max_ops, OpWeights { call_drop: 3, ..MSG_WEIGHTS }),
-                schedule(if big { 96 } else { 48 }),
-            )
+            (Just(spawn), Just(started), grants(n, owning, 1), vec(vec(op.clone(), 3..=max_ops), n..=n), schedule(if big { 96 } else { 48 }))
         })
         .prop_map(|(spawn, started, grants, clients, schedule)| {
-            finalize(Case {
+            let beh = Behavior { started, ..Default::default() };
+            let mut c = Case {
                 family: Family::C01,
-                actors: one_actor(spawn, Behavior { started, ..Default::default() }),
-                default_beh: vec![],
+                actors: one_actor(spawn, beh.clone()),
+                default_beh: vec![beh],
                 grants,
                 clients,
                 faults: vec![],
                 schedule,
                 settle: 0,
-            })
+            };
+            sanitize(&mut c);
+            avoid_exact_timeout(&mut c);
+            finalize(c)
         })
         .boxed()
 }
@@ -327,10 +335,14 @@ pub fn c02(big: bool) -> BoxedStrategy<Case> {
         2 => (1u32..6).prop_map(Cause::TimeoutFail),
     ];
     let w = OpWeights { stop: 3, halt: 2, try_stop: 2, await_: 3, drop: 3, join: 2, consume: 1, call_drop: 7, max_sleep: 8, ..MSG_WEIGHTS };
+    let op = mixed_ops(w, vec![
+        (5, (h(), work(2, 6), 1u8..4).prop_map(|(h, work, extra)| ClientOp::SendRepoll { h, work, extra }).boxed()),
+        (2, h().prop_map(|h| ClientOp::JoinStash { h }).boxed()),
+    ]);
     (plain_spawn(false), cause, 1usize..=4)
         .prop_flat_map(move |(spawn, cause, n)| {
             let owning = spawn.owning();
-            (Just(spawn), Just(cause), grants(n, owning, 2), clients(n..=n, 3..=max_ops, w), schedule(if big { 96 } else { 48 }))
+            (Just(spawn), Just(cause), grants(n, owning, 2), vec(vec(op.clone(), 3..=max_ops), n..=n), schedule(if big { 96 } else { 48 }))
         })
         .prop_map(|(mut spawn, cause, grants, clients, schedule)| {
             let mut faults = vec![];
@@ -366,7 +378,7 @@ pub fn avoid_exact_timeout(c: &mut Case) {
     let Some((t, _)) = c.actors.first().and_then(|a| a.spawn.timeout()) else { return };
     for cl in &mut c.clients {
         for op in cl {
-            if let ClientOp::Send { work, .. } | ClientOp::Call { work, .. } | ClientOp::CallDrop { work, .. } = op {
+            if let ClientOp::Send { work, .. } | ClientOp::Call { work, .. } | ClientOp::CallDrop { work, .. } | ClientOp::SendRepoll { work, .. } = op {
                 let total: u32 = work.iter().map(|s| if let Step::Sleep(x) = s { *x } else { 0 }).sum();
                 if total == t {
                     work.push(Step::Sleep(1));
@@ -383,7 +395,7 @@ fn sanitize(c: &mut Case) {
     if stream {
         for cl in &mut c.clients {
             for op in cl.iter_mut() {
-                if let ClientOp::Send { work, .. } | ClientOp::Call { work, .. } | ClientOp::CallDrop { work, .. } = op {
+                if let ClientOp::Send { work, .. } | ClientOp::Call { work, .. } | ClientOp::CallDrop { work, .. } | ClientOp::SendRepoll { work, .. } = op {
                     work.retain(|s| !matches!(s, Step::CtxRestart));
                 }
             }
@@ -420,6 +432,13 @@ fn msg_op(send: u32, call: u32, w: BoxedStrategy<Vec<Step>>) -> BoxedStrategy<Cl
     .boxed()
 }
 
+fn mixed_ops_boxed(base: BoxedStrategy<ClientOp>, extra: Vec<(u32, BoxedStrategy<ClientOp>)>) -> BoxedStrategy<ClientOp> {
+    let total_extra: u32 = extra.iter().map(|e| e.0).sum();
+    let mut alts = vec![(100u32.saturating_sub(total_extra).max(1), base)];
+    alts.extend(extra);
+    proptest::strategy::Union::new_weighted(alts).boxed()
+}
+
 fn mixed_ops(base: OpWeights, extra: Vec<(u32, BoxedStrategy<ClientOp>)>) -> BoxedStrategy<ClientOp> {
     let total_extra: u32 = extra.iter().map(|e| e.0).sum();
     let mut alts = vec![(100u32.saturating_sub(total_extra).max(1), client_op(base))];
@@ -429,7 +448,11 @@ fn mixed_ops(base: OpWeights, extra: Vec<(u32, BoxedStrategy<ClientOp>)>) -> Box
 
 pub fn c03(big: bool) -> BoxedStrategy<Case> {
     let max_ops = if big { 14 } else { 9 };
-    let spawn = prop_oneof![3 => plain_spawn(true), 2 => stream_spawn()];
+    let spawn = prop_oneof![
+        6 => plain_spawn(true),
+        1 => (mailbox(), 2u32..6, any::<bool>()).prop_map(|(mailbox, t, owning)| SpawnSpec::Build { mailbox, strategy: RStrat::Default, timeout: Some(t), fail_on_timeout: false, owning }),
+        4 => stream_spawn()
+    ];
     let start_fail = prop_oneof![6 => Just(None), 1 => (0u32..3).prop_map(|i| Some((i, FailHow::Err)))];
     let base = OpWeights { stop: 4, halt: 2, try_stop: 2, await_: 3, drop: 5, restart: 8, join: 2, consume: 1, max_sleep: 4, send: 25, call: 20, ..MSG_WEIGHTS };
     let op = mixed_ops(
@@ -453,6 +476,12 @@ pub fn c03(big: bool) -> BoxedStrategy<Case> {
             )
         })
         .prop_map(|(spawn, start_fail, (started, stopped, finished), grants, clients, schedule)| {
+            // a started callback that suspends (longer than a configured handler timeout)
+            let mut started = started;
+            if !finished.is_empty() {
+                let extra = spawn.timeout().map(|(t, _)| t + 1).unwrap_or(2);
+                started.insert(0, Step::Sleep(extra));
+            }
             let beh = Behavior { started, start_fail, stopped, finished, ..Default::default() };
             let mut c = Case {
                 family: Family::C03,
@@ -466,6 +495,7 @@ pub fn c03(big: bool) -> BoxedStrategy<Case> {
                 settle: 0,
             };
             sanitize(&mut c);
+            avoid_exact_timeout(&mut c);
             finalize(c)
         })
         .boxed()
@@ -475,22 +505,31 @@ pub fn c04(big: bool) -> BoxedStrategy<Case> {
     let max_ops = if big { 14 } else { 9 };
     let base = OpWeights { stop: 7, halt: 4, try_stop: 5, await_: 7, drop: 0, give: 2, join: 3, consume: 2, max_sleep: 4, send: 28, call: 24, ping: 5, convert: 8, ..MSG_WEIGHTS };
     let op = mixed_ops(base, vec![(8, msg_op(1, 1, ctx_work(3, 3, 0)))]);
-    (plain_spawn(false), 2usize..=4, slow_callback())
+    let spawn = prop_oneof![
+        8 => plain_spawn(false),
+        1 => (mailbox(), 2u32..6, any::<bool>()).prop_map(|(mailbox, t, owning)| SpawnSpec::Build { mailbox, strategy: RStrat::Default, timeout: Some(t), fail_on_timeout: true, owning }),
+        2 => stream_spawn(),
+    ];
+    let op = mixed_ops_boxed(op, vec![(3, (any::<u8>(), 0u8..3).prop_map(|(stream, n)| ClientOp::Feed { stream, n }).boxed())]);
+    (spawn, 2usize..=4, (slow_callback(), prop_oneof![9 => Just(None), 1 => Just(Some((0u32, FailHow::Err)))]))
         .prop_flat_map(move |(spawn, n, stopped)| {
             let owning = spawn.owning();
             (Just(spawn), Just(stopped), grants(n, owning, 3), vec(vec(op.clone(), 3..=max_ops), n..=n), schedule(if big { 96 } else { 48 }))
         })
-        .prop_map(|(spawn, stopped, grants, clients, schedule)| {
-            finalize(Case {
+        .prop_map(|(spawn, (stopped, start_fail), grants, clients, schedule)| {
+            let mut c = Case {
                 family: Family::C04,
-                actors: one_actor(spawn, Behavior { stopped, ..Default::default() }),
+                actors: one_actor(spawn, Behavior { stopped: stopped.clone(), finished: stopped, start_fail, ..Default::default() }),
                 default_beh: vec![],
                 grants,
                 clients,
                 faults: vec![],
                 schedule,
                 settle: 0,
-            })
+            };
+            sanitize(&mut c);
+            avoid_exact_timeout(&mut c);
+            finalize(c)
         })
         .boxed()
 }
@@ -568,13 +607,15 @@ pub fn c12(big: bool) -> BoxedStrategy<Case> {
         3 => Just(vec![]),
         2 => vec((prop_oneof![Just(TimerKind::Interval), Just(TimerKind::IntervalWith)], 1u32..=8).prop_map(|(kind, ticks)| Step::AddTimer(TimerSpec { kind, ticks, work: vec![] })), 1..=2),
     ];
-    (spawn, timers, 1usize..=4)
-        .prop_flat_map(move |(spawn, started, n)| {
+    let base_op = mixed_ops(base, vec![(10, (h(), work(2, 6), 1u8..4).prop_map(|(h, work, extra)| ClientOp::SendRepoll { h, work, extra }).boxed())]);
+    (spawn, timers, 1usize..=4, proptest::bool::weighted(0.04))
+        .prop_flat_map(move |(spawn, started, n, flood)| {
             let owning = spawn.owning();
+            let base_op = base_op.clone();
             let g = vec(vec(prop_oneof![4 => Just(HKind::Addr), 3 => Just(HKind::Sender), 2 => Just(HKind::WeakSender), 1 => Just(HKind::Caller), 1 => Just(HKind::WeakAddr)], 1..=3), n);
-            (Just(spawn), Just(started), g, Just(owning), clients(n..=n, 3..=max_ops, base), schedule(if big { 96 } else { 48 }))
+            (Just(spawn), Just(started), g, Just((owning, flood)), vec(vec(base_op, 3..=max_ops), n..=n), schedule(if big { 96 } else { 48 }))
         })
-        .prop_map(|(spawn, started, per, owning, clients, schedule)| {
+        .prop_map(|(mut spawn, started, per, (owning, flood), mut clients, schedule)| {
             let mut grants = vec![];
             if owning {
                 grants.push(Grant { client: 0, actor: 0, kind: HKind::Owning });
@@ -584,6 +625,13 @@ pub fn c12(big: bool) -> BoxedStrategy<Case> {
                 for kind in kinds {
                     grants.push(Grant { client: c, actor: 0, kind });
                 }
+            }
+            if flood {
+                // an unbounded mailbox far behind: one slow message, then a long run of sends
+                spawn = SpawnSpec::Build { mailbox: Mailbox::Unbounded, strategy: RStrat::Default, timeout: None, fail_on_timeout: false, owning };
+                let mut prog = vec![ClientOp::Send { h: 0, work: vec![Step::Sleep(6)] }];
+                prog.extend((0..90).map(|i| ClientOp::Send { h: (i * 7919) as u16, work: vec![] }));
+                clients[0] = prog;
             }
             finalize(Case {
                 family: Family::C12,
@@ -604,7 +652,8 @@ pub fn c07(big: bool) -> BoxedStrategy<Case> {
     let strat = prop_oneof![3 => Just(RStrat::Default), 3 => Just(RStrat::Recreate), 1 => Just(RStrat::NonRestartable)];
     let spawn = prop_oneof![
         1 => Just(SpawnSpec::Spawn),
-        6 => (mailbox(), strat, any::<bool>()).prop_map(|(mailbox, strategy, owning)| SpawnSpec::Build { mailbox, strategy, timeout: None, fail_on_timeout: false, owning }),
+        6 => (mailbox(), strat.clone(), any::<bool>()).prop_map(|(mailbox, strategy, owning)| SpawnSpec::Build { mailbox, strategy, timeout: None, fail_on_timeout: false, owning }),
+        2 => (mailbox(), strat, any::<bool>(), 2u32..6, any::<bool>()).prop_map(|(mailbox, strategy, owning, t, fail_on_timeout)| SpawnSpec::Build { mailbox, strategy, timeout: Some(t), fail_on_timeout, owning }),
     ];
     let start_fail = prop_oneof![8 => Just(None), 1 => (1u32..3).prop_map(|i| Some((i, FailHow::Err)))];
     let base = OpWeights { restart: 14, stop: 1, await_: 2, join: 1, drop: 0, max_sleep: 4, send: 28, call: 26, ping: 4, convert: 6, ..MSG_WEIGHTS };
@@ -613,14 +662,26 @@ pub fn c07(big: bool) -> BoxedStrategy<Case> {
         if call { ClientOp::Call { h, work } } else { ClientOp::Send { h, work } }
     });
     let op = mixed_ops(base, vec![(10, msg_op(1, 1, ctx_work(3, 0, 4))), (5, timer_in_handler.boxed())]);
-    (spawn, start_fail, started_with_timers(2), 1usize..=3)
+    let stopped = prop_oneof![3 => slow_callback(), 1 => light_timer().prop_map(|t| vec![Step::AddTimer(t)]), 1 => (light_timer(), 1u32..3).prop_map(|(t, d)| vec![Step::Sleep(d), Step::AddTimer(t)])];
+    (spawn, start_fail, (started_with_timers(2), stopped, slow_callback()), 1usize..=3)
         .prop_flat_map(move |(spawn, start_fail, started, n)| {
             let owning = spawn.owning();
             (Just(spawn), Just(start_fail), Just(started), grants(n, owning, 1), vec(vec(op.clone(), 3..=max_ops), n..=n), schedule(if big { 96 } else { 48 }))
         })
-        .prop_map(|(spawn, start_fail, started, grants, clients, schedule)| {
-            let beh = Behavior { started, start_fail, ..Default::default() };
-            finalize(Case {
+        .prop_map(|(spawn, start_fail, (started, stopped, slow), grants, clients, schedule)| {
+            // callbacks that suspend, longer than a configured handler timeout (a timeout is about handlers)
+            let mut started = started;
+            let mut stopped = stopped;
+            if let Some((t, _)) = spawn.timeout() {
+                if !slow.is_empty() {
+                    started.insert(0, Step::Sleep(t + 1));
+                    stopped.insert(0, Step::Sleep(t + 2));
+                }
+            } else {
+                started.splice(0..0, slow);
+            }
+            let beh = Behavior { started, start_fail, stopped, ..Default::default() };
+            let c = Case {
                 family: Family::C07,
                 actors: one_actor(spawn, beh.clone()),
                 default_beh: vec![beh],
@@ -629,7 +690,10 @@ pub fn c07(big: bool) -> BoxedStrategy<Case> {
                 faults: vec![],
                 schedule,
                 settle: 0,
-            })
+            };
+            let mut c = c;
+            avoid_exact_timeout(&mut c);
+            finalize(c)
         })
         .boxed()
 }
@@ -663,7 +727,9 @@ pub fn c10(big: bool) -> BoxedStrategy<Case> {
     // mostly waiting clients: the actor is idle except for its timers
     let base = OpWeights { send: 6, call: 6, ping: 2, convert: 2, yield_: 4, sleep: 60, give: 0, drop: 6, stop: 5, halt: 2, try_stop: 2, max_sleep: 40, ..MSG_WEIGHTS };
     let timer_in_handler = (any_timer(50), h()).prop_map(|(t, h)| ClientOp::Call { h, work: vec![Step::AddTimer(t)] });
-    let op = mixed_ops(base, vec![(8, timer_in_handler.boxed())]);
+    // a long congestion: one very slow message (virtual time is free)
+    let congestion = (h(), 1000u32..2500).prop_map(|(h, d)| ClientOp::Send { h, work: vec![Step::Sleep(d)] });
+    let op = mixed_ops(base, vec![(8, timer_in_handler.boxed()), (2, congestion.boxed())]);
     let cause = prop_oneof![
         8 => Just(Cause::None),
         1 => prop_oneof![Just(FailHow::Err), Just(FailHow::Panic)].prop_map(Cause::StartFail),
@@ -702,9 +768,23 @@ pub fn c10(big: bool) -> BoxedStrategy<Case> {
                 settle: 0,
             };
             avoid_exact_timeout(&mut c);
+            // at most one very slow message per case
+            let mut long_seen = false;
+            for cl in &mut c.clients {
+                for op in cl.iter_mut() {
+                    if let ClientOp::Send { work, .. } = op {
+                        if work.iter().any(|s| matches!(s, Step::Sleep(d) if *d >= 1000)) {
+                            if long_seen {
+                                work.clear();
+                            }
+                            long_seen = true;
+                        }
+                    }
+                }
+            }
             // at most one repeating timer with a slow handler (load < 1): the actor must be able
-            // to keep up with its own timers
-            let mut slow_seen = false;
+            // to keep up with its own timers (none at all next to a very slow message)
+            let mut slow_seen = long_seen;
             let mut fix = |t: &mut TimerSpec| {
                 if t.work.iter().any(|s| matches!(s, Step::Sleep(_))) {
                     if slow_seen {
@@ -838,7 +918,7 @@ pub fn c17(big: bool) -> BoxedStrategy<Case> {
         1 => (0u32..10).prop_map(Cause::Cancel),
     ];
     let base = OpWeights { send: 22, call: 22, ping: 4, convert: 10, yield_: 4, sleep: 3, give: 2, drop: 3, stop: 6, halt: 1, await_: 2, join: 12, consume: 4, detach: 3, max_sleep: 4, ..MSG_WEIGHTS };
-    let op = mixed_ops(base, vec![(5, msg_op(1, 1, ctx_work(3, 3, 0)))]);
+    let op = mixed_ops(base, vec![(5, msg_op(1, 1, ctx_work(3, 3, 0))), (3, h().prop_map(|h| ClientOp::JoinStash { h }).boxed())]);
     (spawn, cause, 1usize..=3, slow_callback())
         .prop_flat_map(move |(spawn, cause, n, stopped)| (Just(spawn), Just((cause, stopped)), grants(n, true, 1), vec(vec(op.clone(), 3..=max_ops), n..=n), schedule(if big { 96 } else { 48 })))
         .prop_map(|(spawn, (cause, stopped), grants, clients, schedule)| {
@@ -961,7 +1041,7 @@ pub fn c16(big: bool) -> BoxedStrategy<Case> {
             let mut next = 1;
             for cl in &mut c.clients {
                 for op in cl.iter_mut() {
-                    if let ClientOp::Send { work, .. } | ClientOp::Call { work, .. } | ClientOp::CallDrop { work, .. } = op {
+                    if let ClientOp::Send { work, .. } | ClientOp::Call { work, .. } | ClientOp::CallDrop { work, .. } | ClientOp::SendRepoll { work, .. } = op {
                         for s in work.iter_mut() {
                             if let Step::SendToChildren { tag, .. } = s {
                                 *tag = next;
@@ -1089,7 +1169,7 @@ pub fn c09(big: bool) -> BoxedStrategy<Case> {
                             *id = next;
                             next += 1;
                         }
-                        ClientOp::Send { work, .. } | ClientOp::Call { work, .. } | ClientOp::CallDrop { work, .. } => {
+                        ClientOp::Send { work, .. } | ClientOp::Call { work, .. } | ClientOp::CallDrop { work, .. } | ClientOp::SendRepoll { work, .. } => {
                             for s in work.iter_mut() {
                                 if let Step::Publish { id, .. } = s {
                                     *id = next;
@@ -1118,7 +1198,7 @@ pub fn c06(big: bool) -> BoxedStrategy<Case> {
     ];
     let reg = prop_oneof![Just(ChildReg::Unit), Just(ChildReg::Msg0)];
     let kids = vec((reg, proptest::bool::weighted(0.3)), 0..=3);
-    let base = OpWeights { send: 20, call: 26, ping: 6, convert: 8, yield_: 5, sleep: 5, give: 1, drop: 2, stop: 2, halt: 1, try_stop: 1, await_: 5, join: 3, max_sleep: 6, ..MSG_WEIGHTS };
+    let base = OpWeights { send: 20, call: 26, ping: 6, convert: 8, yield_: 5, sleep: 5, give: 1, drop: 2, stop: 2, halt: 1, try_stop: 1, await_: 5, join: 3, restart: 3, max_sleep: 6, ..MSG_WEIGHTS };
     let peer_call = (h(), any::<bool>()).prop_map(|(h, call)| {
         let work = vec![Step::CallPeer];
         if call { ClientOp::Call { h, work } } else { ClientOp::Send { h, work } }
